@@ -99,9 +99,8 @@ func sched(repo, out, mcDir string) {
 		n++
 		return nil
 	}))
-	if n == 0 {
-		must(fmt.Errorf("no file under %s imports sync: the scheduler seam would be vacuous", root))
-	}
+	// n == 0: nothing under pkg/inflector uses package sync (any more); the overlay then only adds the
+	// virtual package and the check reports that the interleaving search is vacuous
 	write(filepath.Join(out, "sched.json"), ov)
 }
 
